@@ -71,6 +71,7 @@ def synthetic(ctx, n, maxlen=None, regs_only=False):
         case, kernel, dg = deps.build_case(pipe, text, fd)
         case["origin"] = "synthetic"
         case["db"] = {"isa_yaml": iy, "arch_yaml": ay}
+        ctx.coverage["synthetic_kernels_with_load_node"] = ctx.coverage.get("synthetic_kernels_with_load_node", 0) + any(l["loadnode"] for l in case["lines"])
         out.append((case, kernel, dg, isa, gl, pipe))
     return out
 
